@@ -39,6 +39,13 @@ type ask struct {
 	API     int `json:"api"`
 	Lat     int `json:"lat"`
 	DeltaUs int `json:"deltaUs"` // racing: reply at timeout+delta
+	// Ctor: 0 AskNewGenerics, 1 AskNewByOptionsGenerics(caller-supplied unbuffered reply channel),
+	// 2 method form New, 3 method form NewByOptions(unbuffered)
+	Ctor int `json:"ctor"`
+	// ReadDelayUs (AskChannel): the asker waits that long before it starts reading the reply channel
+	ReadDelayUs int `json:"readDelayUs"`
+	// TimeoutKind (never/late): 0 = 2ms, 1 = zero timeout, 2 = negative timeout (both expire at once)
+	TimeoutKind int `json:"timeoutKind"`
 }
 
 type scenario struct {
@@ -55,7 +62,13 @@ func (s scenario) String() string {
 			if j > 0 {
 				sb.WriteByte(' ')
 			}
-			fmt.Fprintf(&sb, "%s/%s", apiNames[k.API][3:], latNames[k.Lat])
+			fmt.Fprintf(&sb, "%s/%s/c%d", apiNames[k.API][3:], latNames[k.Lat], k.Ctor)
+			if k.ReadDelayUs > 0 {
+				fmt.Fprintf(&sb, "/read+%dus", k.ReadDelayUs)
+			}
+			if k.TimeoutKind > 0 {
+				fmt.Fprintf(&sb, "/t%d", k.TimeoutKind)
+			}
 			if k.Lat == latRacing {
 				fmt.Fprintf(&sb, "%+d", k.DeltaUs)
 			}
@@ -99,6 +112,13 @@ func genScenario(t *rapid.T) scenario {
 			}
 			if a.Lat == latRacing {
 				a.DeltaUs = rapid.IntRange(-300, 300).Draw(t, "delta")
+			}
+			a.Ctor = rapid.IntRange(0, 3).Draw(t, "ctor")
+			if a.API == apiChannel {
+				a.ReadDelayUs = rapid.SampledFrom([]int{0, 0, 20, 200}).Draw(t, "readDelay")
+			}
+			if a.Lat == latNever || a.Lat == latLate {
+				a.TimeoutKind = rapid.SampledFrom([]int{0, 0, 1, 2}).Draw(t, "timeoutKind")
 			}
 			as = append(as, a)
 		}
@@ -188,7 +208,18 @@ func runScenario(s scenario) result {
 			{
 				for j, sp := range s.Askers[i] {
 					id := ids[key{i, j}]
-					a := fpgo.AskNewGenerics[int, int](id)
+					var a *fpgo.AskDef[int, int]
+					var factory fpgo.AskDef[int, int]
+					switch sp.Ctor {
+					case 1:
+						a = fpgo.AskNewByOptionsGenerics[int, int](id, make(chan int))
+					case 2:
+						a = factory.New(id)
+					case 3:
+						a = factory.NewByOptions(id, make(chan int))
+					default:
+						a = fpgo.AskNewGenerics[int, int](id)
+					}
 					n := atomic.AddInt64(&inflight, 1)
 					for {
 						m := atomic.LoadInt64(&maxInflight)
@@ -204,6 +235,9 @@ func runScenario(s scenario) result {
 						}
 					case apiChannel:
 						ch := a.AskChannel(actor)
+						if sp.ReadDelayUs > 0 {
+							time.Sleep(time.Duration(sp.ReadDelayUs) * time.Microsecond)
+						}
 						got := <-ch
 						if got != f(id) {
 							setFail("C13/wrong-reply", fmt.Sprintf("AskChannel(%d) got %d want %d", id, got, f(id)))
@@ -212,7 +246,7 @@ func runScenario(s scenario) result {
 						timeout := 10 * time.Second
 						switch sp.Lat {
 						case latNever, latLate:
-							timeout = 2 * time.Millisecond
+							timeout = []time.Duration{2 * time.Millisecond, 0, -time.Millisecond}[sp.TimeoutKind]
 						case latRacing:
 							timeout = racingTimeout
 						}
@@ -224,7 +258,7 @@ func runScenario(s scenario) result {
 							}
 						case latNever, latLate:
 							if err != fpgo.ErrActorAskTimeout || got != 0 {
-								setFail("C13/timeout-result", fmt.Sprintf("AskOnceWithTimeout(%d, 2ms) without reply = (%d,%v) want (0,ErrActorAskTimeout)", id, got, err))
+								setFail("C13/timeout-result", fmt.Sprintf("AskOnceWithTimeout(%d, timeout kind %d) without reply = (%d,%v) want (0,ErrActorAskTimeout)", id, sp.TimeoutKind, got, err))
 							}
 						case latRacing:
 							if !(err == nil && got == f(id)) && !(err == fpgo.ErrActorAskTimeout && got == 0) {
@@ -399,6 +433,8 @@ func TestRegress(t *testing.T) {
 		{Cap: -1, Askers: [][]ask{{{API: apiTimeout, Lat: latLate}, {API: apiOnce, Lat: latImmediate}}, {{API: apiChannel, Lat: latDeferred}}}},
 		{Cap: 4, Askers: [][]ask{{{API: apiTimeout, Lat: latRacing, DeltaUs: 50}}, {{API: apiTimeout, Lat: latRacing, DeltaUs: -50}}}},
 		{Cap: -1, Askers: [][]ask{{{API: apiTimeout, Lat: latNever}, {API: apiTimeout, Lat: latImmediate}}}},
+		{Cap: -1, Askers: [][]ask{{{API: apiChannel, Lat: latImmediate, Ctor: 1, ReadDelayUs: 200}, {API: apiChannel, Lat: latImmediate, Ctor: 3, ReadDelayUs: 20}}}},
+		{Cap: -1, Askers: [][]ask{{{API: apiTimeout, Lat: latNever, TimeoutKind: 1}, {API: apiTimeout, Lat: latLate, TimeoutKind: 2}, {API: apiOnce, Lat: latImmediate, Ctor: 2}}}},
 	}
 	for _, s := range cases {
 		for rep := 0; rep < 5; rep++ {
@@ -429,7 +465,7 @@ func TestReplayJSON(t *testing.T) {
 }
 
 func TestAsk(t *testing.T) {
-	vlib.Check(t, "ask", 500, 2500, func(t *rapid.T) {
+	vlib.Check(t, "ask", 500, 6000, func(t *rapid.T) {
 		s := genScenario(t)
 		st := vlib.S()
 		st.Eval("ask")
